@@ -273,6 +273,9 @@ class APIConnection:
         Safe to call multiple times.
         """
         if self.connection_state is CONNECTION_STATE_CLOSED:
+            # A connect phase that resumed after the connection was closed
+            # may have acquired resources after the first cleanup.
+            self._release_resources()
             return
         was_connected = self.is_connected
         self._set_connection_state(CONNECTION_STATE_CLOSED)
@@ -291,6 +294,14 @@ class APIConnection:
         self._set_start_connect_future()
         self._set_finish_connect_future()
 
+        self._release_resources()
+
+        if (on_stop := self.on_stop) is not None and was_connected:
+            self.on_stop = None
+            on_stop(self._expected_disconnect)
+
+    def _release_resources(self) -> None:
+        """Close the frame helper and socket and cancel the keep alive timers."""
         if self._frame_helper is not None:
             self._frame_helper.close()
             self._frame_helper = None
@@ -304,10 +315,6 @@ class APIConnection:
         if self._ping_timer is not None:
             self._ping_timer.cancel()
             self._ping_timer = None
-
-        if (on_stop := self.on_stop) is not None and was_connected:
-            self.on_stop = None
-            on_stop(self._expected_disconnect)
 
     def set_debug(self, enable: bool) -> None:
         """Enable or disable debug logging."""
@@ -607,6 +614,7 @@ class APIConnection:
                 self._start_connect_future, ConnectionInterruptedError, None
             ):
                 await self._do_connect()
+            self._set_connection_state(CONNECTION_STATE_SOCKET_OPENED)
         except (Exception, CancelledError) as ex:
             # If the task was cancelled, we need to clean up the connection
             # and raise the CancelledError as APIConnectionError
@@ -614,7 +622,6 @@ class APIConnection:
             raise self._wrap_fatal_connection_exception("starting", ex)
         finally:
             self._set_start_connect_future()
-        self._set_connection_state(CONNECTION_STATE_SOCKET_OPENED)
 
     def _set_start_connect_future(self) -> None:
         if (
@@ -674,6 +681,7 @@ class APIConnection:
                 self._finish_connect_future, ConnectionInterruptedError, None
             ):
                 await self._do_finish_connect(login)
+            self._set_connection_state(CONNECTION_STATE_CONNECTED)
         except (Exception, CancelledError) as ex:
             # If the task was cancelled, we need to clean up the connection
             # and raise the CancelledError as APIConnectionError
@@ -681,7 +689,6 @@ class APIConnection:
             raise self._wrap_fatal_connection_exception("finishing", ex)
         finally:
             self._set_finish_connect_future()
-        self._set_connection_state(CONNECTION_STATE_CONNECTED)
 
     def _set_finish_connect_future(self) -> None:
         if (
@@ -693,6 +700,13 @@ class APIConnection:
 
     def _set_connection_state(self, state: ConnectionState) -> None:
         """Set the connection state and log the change."""
+        if (
+            self.connection_state is CONNECTION_STATE_CLOSED
+            and state is not CONNECTION_STATE_CLOSED
+        ):
+            # Closed is final: a connect phase that completes in the same
+            # event loop iteration as a disconnect or fatal error must fail.
+            raise ConnectionInterruptedError
         self.connection_state = state
         self.is_connected = state is CONNECTION_STATE_CONNECTED
         self._handshake_complete = (
